@@ -3,4 +3,5 @@ import Pose.BigF
 import Pose.Wire
 import Pose.Model.Basic
 import Pose.Model.Lie
-import Pose.Driver
+import Pose.Driver.Loop
+import Pose.Driver.Core
